@@ -219,7 +219,8 @@ def spec_on_vectors(run, tier, ulaw):
 def run(tier, seed):
     run = common.Run("C13", tier, seed)
     rng = random.Random(seed)
-    for cfg, name in (("Shorten_tiny.cfg", "Shorten(tiny)"), ("Shorten_lpc.cfg", "Shorten(lpc)")):
+    for cfg, name in (("Shorten_tiny.cfg", "Shorten(tiny)"), ("Shorten_lpc.cfg", "Shorten(lpc)"),
+                      ("Shorten_tiny2.cfg" if tier == "quick" else "Shorten_tiny2_thorough.cfg", "Shorten(two channels, shift changing inside a frame)")):
         r = common.tlc("MC_Shorten", cfg, timeout=3000, jvm=("-Xss64m",))
         if r.violated:
             run.violation({"kind": "model_" + r.violated, "module": name, "detail": r.errtext[-3000:]})
@@ -261,6 +262,19 @@ def run(tier, seed):
     names = {0: "DIFF0", 1: "DIFF1", 2: "DIFF2", 3: "DIFF3", 4: "QUIT", 5: "BLOCKSIZE", 6: "BITSHIFT", 7: "QLPC", 8: "ZERO"}
     run.extra["commands_replayed"] = {names[c]: n for c, n in sorted(cmds.items())}
     missing = [names[c] for c in names if c not in cmds]
+    # BITSHIFT between the channel blocks of one frame (the shift is decoder-wide; channels may differ)
+    midframe = 0
+    for beh in behs:
+        ch = 0
+        for c in beh["note"]:
+            if c == 6 and ch % beh["hdr"]["nchan"]:
+                midframe += 1
+                break
+            if c in (0, 1, 2, 3, 7, 8):
+                ch += 1
+    run.extra["behaviours_with_shift_change_inside_a_frame"] = midframe
+    if not midframe:
+        raise common.MachineryError("vacuous: no exported behaviour changes the bit shift between channel blocks")
     if missing:
         raise common.MachineryError("vacuous: commands never emitted by the exported behaviours: %s" % missing)
     b = behs[0]
